@@ -77,6 +77,15 @@ def check_affine(report, rule, where, label, poly, expected, vocabulary, clause=
     if not isinstance(poly, Poly):
         raise AnalysisError(f"{label}: result is not numeric ({type(poly).__name__})")
     inner, floored = unwrap_floor(poly)
+    # a value rounded to NEAREST where the oracle wants truncation (or an exact value)
+    rounded = [a for m in inner.terms for a, _ in m if a.startswith("round[")]
+    if len(rounded) == 1 and len(inner.terms) == 1 and list(inner.terms.values())[0] == 1 \
+            and rounded[0].endswith("]") and ", " not in rounded[0].rsplit("]", 1)[0].rsplit("[", 1)[-1][-4:]:
+        report.violation(rule, where, label, {"found": inner.show()[:200],
+                                              "why": "the value is rounded to the nearest integer; sub-unit remainders must be "
+                                                     "dropped (truncated), so results differ by one unit whenever the remainder "
+                                                     "exceeds one half"}, clause)
+        return False, inner, False
     early = []
     for m, c in inner.terms.items():
         for a, e in m:
